@@ -20,7 +20,7 @@ from fractions import Fraction
 import numpy as np
 
 PROP = 'C02'
-TARGETS = ['T8', 'T8b', 'T8c', 'T8d', 'T8e', 'T8f', 'T8g', 'T8h', 'T8j', 'T8k', 'T8m', 'T8n', 'T17p']
+TARGETS = ['T8', 'T8b', 'T8c', 'T8d', 'T8e', 'T8f', 'T8g', 'T8h', 'T8j', 'T8k', 'T8m', 'T8n', 'T8p', 'T8q', 'T17p']
 LEAN_MODULES = ['HdVerif.Props.C02']
 MODEL_MODULES = ['HdVerif.Model.SegRead', 'HdVerif.Model.SegMeta', 'HdVerif.Model.Effects']
 NAMESPACE = 'HdVerif.C02'
@@ -40,6 +40,12 @@ ASSUMPTIONS = [
     'SQLite joins are modelled as list comprehensions; the order of rows inside one output frame is not fixed by the '
     'query and is shown not to matter (theorem combine_order_independent)',
     'float16 output dtype is not exercised (integers above 2048 are not exact there)',
+    'third-party objects (dataset edited after construction, parsed again): non-contiguous segment numbers in BINARY / FRACTIONAL '
+    'objects are drawn except for TILED_FULL, where the segment of a frame is implied by its position and the library takes '
+    'the ordinal for the number (tried once: such an object reads as empty for its real numbers; the standard requires 1..n there)',
+    'a BINARY / FRACTIONAL object that does not use ReferencedSegmentNumber as a dimension index (Segment Identification only in '
+    'the shared functional groups) cannot be read by segment at all: every read fails with KeyError / sqlite3.OperationalError; '
+    'the model mirrors the refusal (segIndexed), the oracle is silent there (findings/C02.json: open, docs/C02.md)',
 ]
 MODELLED_NOT_VERIFIED = ['numpy (astype, fancy indexing, eye, maximum, isin)', 'SQLite', 'pydicom dataset / pixel decoding',
                          'frame decoding and frame LUT construction (C01/C05)', 'tiled-region slice arithmetic (C04)',
@@ -186,6 +192,30 @@ def _draw_object(ctx, idx):
         d['tiled_full'] = r.random() < 0.4
         if d['tiled_full']:
             d['omit'] = False
+    # ---- the object as a THIRD PARTY might have written it (own PRNG stream: the population above is unchanged): the dataset
+    # is edited after construction and parsed again
+    r3 = ctx.rng('third', idx)
+    third = []
+    tiled_full_maybe = bool(d.get('tiled_full'))
+    if segtype != 'LABELMAP' and r3.random() < 0.3 and not d.get('tiled_full'):
+        # non-contiguous segment numbers in a BINARY / FRACTIONAL object (the constructor insists on 1..n, the standard does not)
+        third.append('renumber')
+        d['build_nums'] = list(nums)
+        d['nums'] = sorted(r3.sample(range(1, 300 if r3.random() < 0.8 else 60000), len(nums)))
+    elif segtype != 'LABELMAP' and len(nums) == 1 and r3.random() < 0.12 and kind != 'tiled':
+        third.append('shared_seg')     # Segment Identification only in the shared functional groups, not a dimension
+    if r3.random() < 0.25 and not tiled_full_maybe:
+        third.append('permute')        # frames stored in another order
+        d['perm_seed'] = r3.randrange(10 ** 6)
+    if kind in ('series', 'multiframe', 'single'):
+        x = r3.random()
+        if x < 0.2:
+            third.append(r3.choice(['loc_no', 'loc_absent', 'loc_one_no', 'loc_one_absent', 'loc_reoriented']))
+        elif x < 0.25 and kind != 'single':
+            third.append('multi_src')  # one frame derives from two source frames
+    d['third'] = third
+    if d['via'] in ('memory', 'file') and r3.random() < 0.35:
+        d['via'] = r3.choice(['file_copy', 'segread', 'pickle', 'deepcopy', 'parent'])
     return d
 
 
@@ -237,7 +267,10 @@ def _build(ctx, d):
     r = ctx.rng('desc', d['idx'])
     store = _draw_mask(ctx, d)
     uid_pool = ['1.2.826.0.1.3680043.8.498.%d' % (1000 + i) for i in range(3)]
-    recs, descs = _descriptions(r, d['nums'], uid_pool)
+    recs, descs = _descriptions(r, d.get('build_nums', d['nums']), uid_pool)
+    for rec, n in zip(recs, d['nums']):
+        rec['number'] = int(n)
+    third = d.get('third') or []
     kind = d['kind']
     kw = {}
     if kind == 'series':
@@ -270,21 +303,160 @@ def _build(ctx, d):
         extra = _copy.deepcopy(seg.ReferencedSeriesSequence[0].ReferencedInstanceSequence[0])
         extra.ReferencedSOPInstanceUID = EXTRA_UID
         seg.ReferencedSeriesSequence[0].ReferencedInstanceSequence.append(extra)
+    if third:
+        st3, why = _fetch(_third_party_edit, seg, d, third)
+        if st3 == 'err':
+            return {'d': d, 'error': 'third-party edit: ' + why, 'store': store}
     buf = io.BytesIO()
     seg.save_as(buf)
     blob = buf.getvalue()
     px = pydicom.dcmread(io.BytesIO(blob)).pixel_array       # pydicom's own decoding of the stored frames
     if px.ndim == 2:
         px = px[None]
-    if d['via'] != 'memory' or d.get('extra_ref'):
-        if d['via'] in ('file', 'memory'):      # (an object with the extra reference is re-parsed so that its tables see it)
+    if 'permute' in third and px.shape[0] > 1:
+        ds = pydicom.dcmread(io.BytesIO(blob))
+        perm = list(range(px.shape[0]))
+        __import__('random').Random(d.get('perm_seed', 0)).shuffle(perm)
+        items = list(ds.PerFrameFunctionalGroupsSequence)
+        ds.PerFrameFunctionalGroupsSequence = pydicom.Sequence([items[i] for i in perm])
+        px = px[perm]
+        if int(ds.BitsAllocated) == 1:
+            from pydicom.pixels.utils import pack_bits
+            data = pack_bits(px.reshape(-1).astype(np.uint8), pad=True)
+        else:
+            data = px.astype(np.uint16 if int(ds.BitsAllocated) == 16 else np.uint8).tobytes()
+            if len(data) % 2:
+                data += b'\x00'
+        ds.PixelData = data
+        buf = io.BytesIO()
+        ds.save_as(buf)
+        blob = buf.getvalue()
+        px2 = pydicom.dcmread(io.BytesIO(blob)).pixel_array
+        px2 = px2[None] if px2.ndim == 2 else px2
+        if not np.array_equal(px2, px):
+            return {'d': d, 'error': 'generator: permuted frames do not decode to the permuted planes', 'store': store}
+    via = d['via']
+    if via == 'memory' and (d.get('extra_ref') or third):
+        via = 'file'          # (an edited object is parsed again so that the object's tables see the edit)
+        d['via'] = via
+    if via != 'memory':
+        if via == 'file':
             st, seg2 = _fetch(lambda: hd.seg.Segmentation.from_dataset(pydicom.dcmread(io.BytesIO(blob)), copy=False))
+        elif via == 'file_copy':
+            st, seg2 = _fetch(lambda: hd.seg.Segmentation.from_dataset(pydicom.dcmread(io.BytesIO(blob)), copy=True))
+        elif via == 'segread':
+            st, seg2 = _fetch(hd.seg.segread, io.BytesIO(blob))
+        elif via == 'parent':
+            # parsed by the parent class first, then by Segmentation from that object
+            st, seg2 = _fetch(lambda: hd.seg.Segmentation.from_dataset(
+                hd.Image.from_dataset(pydicom.dcmread(io.BytesIO(blob))), copy=r.random() < 0.5))
+        elif via == 'pickle':
+            import pickle
+            st, seg2 = _fetch(lambda: pickle.loads(pickle.dumps(
+                hd.seg.Segmentation.from_dataset(pydicom.dcmread(io.BytesIO(blob)), copy=False))))
+        elif via == 'deepcopy':
+            import copy as _copy
+            st, seg2 = _fetch(lambda: _copy.deepcopy(
+                hd.seg.Segmentation.from_dataset(pydicom.dcmread(io.BytesIO(blob)), copy=False)))
         else:
             st, seg2 = _fetch(hd.seg.segread, io.BytesIO(blob), lazy_frame_retrieval=True)
         if st == 'err':
             return {'d': d, 'error': 'reopen: ' + seg2, 'store': store}
         seg = seg2
-    return {'d': d, 'seg': seg, 'store': store, 'src': src, 'recs': recs, 'px': px}
+    facts = _indexing_facts(pydicom.dcmread(io.BytesIO(blob)))
+    return {'d': d, 'seg': seg, 'store': store, 'src': src, 'recs': recs, 'px': px, 'facts': facts}
+
+
+def _third_party_edit(seg, d, third):
+    """Edit the constructed dataset in place the way another implementation might legally have written it."""
+    import copy as _copy
+    import pydicom
+    pffg = seg.get('PerFrameFunctionalGroupsSequence') or []
+    if 'renumber' in third:
+        ren = {int(a): int(b) for a, b in zip(d['build_nums'], d['nums'])}
+        for it in seg.SegmentSequence:
+            it.SegmentNumber = ren[int(it.SegmentNumber)]
+        for it in pffg:
+            if 'SegmentIdentificationSequence' in it:
+                sid = it.SegmentIdentificationSequence[0]
+                sid.ReferencedSegmentNumber = ren[int(sid.ReferencedSegmentNumber)]
+    if 'shared_seg' in third and len(pffg) and 'DimensionIndexSequence' in seg:
+        ptrs = [int(i.DimensionIndexPointer) for i in seg.DimensionIndexSequence]
+        if 0x0062000B in ptrs and len(ptrs) > 1:
+            k = ptrs.index(0x0062000B)
+            sis = _copy.deepcopy(pffg[0].SegmentIdentificationSequence)
+            for it in pffg:
+                del it.SegmentIdentificationSequence
+                v = it.FrameContentSequence[0].DimensionIndexValues
+                v = [int(v)] if isinstance(v, (int, np.integer)) else [int(x) for x in v]
+                it.FrameContentSequence[0].DimensionIndexValues = v[:k] + v[k + 1:]
+            seg.SharedFunctionalGroupsSequence[0].SegmentIdentificationSequence = sis
+            seg.DimensionIndexSequence = pydicom.Sequence([x for i, x in enumerate(seg.DimensionIndexSequence) if i != k])
+        else:
+            third.remove('shared_seg')
+    srcs = [s for it in pffg for dv in it.get('DerivationImageSequence', []) for s in dv.get('SourceImageSequence', [])]
+    for kind_ in ('loc_no', 'loc_absent', 'loc_one_no', 'loc_one_absent', 'loc_reoriented'):
+        if kind_ in third and srcs:
+            todo = srcs if kind_ in ('loc_no', 'loc_absent', 'loc_reoriented') else [srcs[-1]]
+            for s in todo:
+                if kind_.endswith('absent'):
+                    if 'SpatialLocationsPreserved' in s:
+                        del s.SpatialLocationsPreserved
+                elif kind_ == 'loc_reoriented':
+                    s.SpatialLocationsPreserved = 'REORIENTED_ONLY'
+                else:
+                    s.SpatialLocationsPreserved = 'NO'
+    if 'multi_src' in third:
+        done = False
+        for it in pffg:
+            for dv in it.get('DerivationImageSequence', []):
+                sis = dv.get('SourceImageSequence', [])
+                if len(sis) == 1 and not done:
+                    extra = _copy.deepcopy(sis[0])
+                    if 'ReferencedFrameNumber' in extra:
+                        extra.ReferencedFrameNumber = int(extra.ReferencedFrameNumber) + 1
+                    else:
+                        others = [str(x.ReferencedSOPInstanceUID) for x in srcs if str(x.ReferencedSOPInstanceUID) != str(extra.ReferencedSOPInstanceUID)]
+                        if not others:
+                            continue
+                        extra.ReferencedSOPInstanceUID = others[0]
+                    sis.append(extra)
+                    done = True
+        if not done:
+            third.remove('multi_src')
+    return None
+
+
+def _indexing_facts(seg_ds):
+    """What a third party reads off the object about indexing by source (pydicom view, independent of the library's tables):
+    (spatial locations preserved: 'yes' / 'no' / 'unknown', every frame has exactly one source frame, TILED_FULL,
+    ReferencedSegmentNumber is a dimension index)."""
+    locs, single = [], True
+    for it in seg_ds.get('PerFrameFunctionalGroupsSequence', []):
+        inst, frs = [], []
+        for dv in it.get('DerivationImageSequence', []):
+            for s in dv.get('SourceImageSequence', []):
+                locs.append(str(s.SpatialLocationsPreserved) if 'SpatialLocationsPreserved' in s else None)
+                inst.append(str(s.ReferencedSOPInstanceUID))
+                fr = s.get('ReferencedFrameNumber')
+                if fr is None:
+                    frs.append(None)
+                elif isinstance(fr, (int, np.integer)):
+                    frs.append(int(fr))
+                else:
+                    frs.extend(int(x) for x in fr)
+        if len(set(inst)) != 1 or len(set(frs)) != 1:
+            single = False
+    if any(v == 'NO' for v in locs):
+        loc = 'no'
+    elif all(v == 'YES' for v in locs):
+        loc = 'yes'
+    else:
+        loc = 'unknown'
+    tiled_full = str(seg_ds.get('DimensionOrganizationType', '')) == 'TILED_FULL'
+    ptrs = [int(i.DimensionIndexPointer) for i in seg_ds.get('DimensionIndexSequence', [])]
+    return {'loc': loc if not tiled_full else 'unknown', 'single': single and not tiled_full, 'tiled_full': tiled_full,
+            'seg_indexed': 0x0062000B in ptrs or tiled_full}
 
 
 # ------------------------------------------------------------------------------------------ stored frames (L1 view)
@@ -429,6 +601,21 @@ def _requests(ctx, obj):
     for q in reqs:
         # half of the options that have their default value are left out of the call
         q['omit'] = [k for k in DEFAULTS if q[k] == DEFAULTS[k] and r.random() < 0.5] + (['segs'] if r.random() < 0.5 else [])
+    # ---- dimensions added later draw from their own stream (the requests above stay what they were)
+    r2 = ctx.rng('req2', d['idx'])
+    loc_edit = any(t.startswith('loc_') for t in (d.get('third') or []))
+    for q in reqs:
+        if q['entry'] in ('instance', 'frame'):
+            # ignore_spatial_locations: True / False / left out
+            x = r2.random()
+            q['ignore'] = (x < 0.6) if loc_edit else (x < 0.15)
+            q['ignore_explicit'] = q['ignore'] or r2.random() < 0.3
+        if r2.random() < 0.07 and not q.get('segs_none'):
+            # a segment number requested twice: must be refused whatever the other options are
+            segs = list(q['segs'])
+            segs.insert(r2.randint(0, len(segs)), r2.choice(segs))
+            q['segs'] = segs
+            q['repeat'] = True
     return reqs
 
 
@@ -447,6 +634,10 @@ def _expected(obj, rq, plane_masks):
     d = obj['d']
     nums = d['nums']
     segs = rq['segs']
+    if len(set(segs)) != len(segs):
+        return ('refuse', 'a segment number is requested twice')
+    if 'shared_seg' in (d.get('third') or []):
+        return ('either', 'ReferencedSegmentNumber is not a dimension index of this object (see ASSUMPTIONS)')
     cols = [nums.index(s) for s in segs]
     R, C = (d['rows'], d['cols'])
     stack = np.stack([m if m is not None else np.zeros((R, C, len(nums)), dtype=np.int64) for m in plane_masks])
@@ -562,6 +753,13 @@ def _run_read(ctx, obj, rq, frames, info):
     if rq['segs_none'] and 'segs' in rq.get('omit', []):
         kw.pop('segment_numbers', None)
     entry = rq['entry']
+    if entry in ('instance', 'frame') and rq.get('ignore_explicit'):
+        am['ignore_spatial_locations'] = bool(rq.get('ignore'))
+    facts = obj.get('facts') or {'loc': 'yes', 'single': True, 'tiled_full': False}
+    # indexing by source is refused when the object does not say that spatial locations are preserved (unless the caller opts
+    # out), when a frame has several sources, and for TILED_FULL
+    must_refuse_indexing = entry in ('instance', 'frame') and (
+        facts['tiled_full'] or not facts['single'] or (facts['loc'] != 'yes' and not rq.get('ignore')))
     plane_masks = None
     must_refuse_missing = False
     post = lambda a: a   # noqa: E731
@@ -721,11 +919,18 @@ def _run_read(ctx, obj, rq, frames, info):
     ctx.case(sample=case if ctx.evaluations % 211 == 0 else None, nontrivial_key=nontriv, type=d['type'], entry=entry,
              kind=d['kind'], via=d['via'], nseg=len(d['nums']), subset_size=len(rq['segs']),
              options=f"c{int(rq['combine'])}r{int(rq['relabel'])}s{int(rq['skip'])}f{int(rq['rescale'])}",
-             dtype=str(rq['dtype']), outcome=outcome, expect=exp[0] if not must_refuse_missing else 'refuse-missing',
+             dtype=str(rq['dtype']), outcome=outcome,
+             expect='refuse-indexing' if must_refuse_indexing else ('refuse-missing' if must_refuse_missing else exp[0]),
+             third='+'.join(d.get('third') or []) or 'none', ignore_spatial=str(rq.get('ignore')) if 'ignore' in rq else 'n/a',
+             repeated=bool(rq.get('repeat')), loc=facts['loc'],
              labels16=max(d['nums']) > 255, region=bool(rq.get('region') or rq.get('vrange')),
              spelling=rq.get('spelling', 'list'))
     site = f"{entry}/{d['type']}/{'combine' if rq['combine'] else 'stack'}"
-    if must_refuse_missing:
+    if must_refuse_indexing:
+        if st == 'ok':
+            ctx.fail(case, 'read by source accepted although the object does not state that spatial locations are preserved '
+                           '(or a frame has several sources) and the caller did not opt out', site=site + '/indexing')
+    elif must_refuse_missing:
         if st == 'ok':
             ctx.fail(case, 'a source frame unknown to the object read as empty without assert_missing_frames_are_empty',
                      site=site + '/missing')
@@ -956,6 +1161,10 @@ def _model_request(obj, rq, frames, info, model_keys):
             'assert_missing': bool(rq['assert_missing']) if mode != 'all' else True,
             'segs': [int(x) for x in rq['segs']], 'combine': rq['combine'], 'relabel': rq['relabel'],
             'skip': rq['skip'], 'rescale': rq['rescale'], 'dtype': rq['dtype'] or 'none'}
+    facts = obj.get('facts')
+    if facts:
+        args.update({'tiled_full': facts['tiled_full'], 'loc_preserved': facts['loc'], 'single_source': facts['single'],
+                     'seg_indexed': facts['seg_indexed'], 'ignore_spatial': bool(rq.get('ignore'))})
     return ('read', args)
 
 
